@@ -1,0 +1,28 @@
+//go:build verif
+
+// Contracts for package backends (compiled only with -tags=verif; checked by /verif/bin/govc). Properties C07, C08.
+package backends
+
+//@ func (*FileSystemCache).buildFilePath(fsc, path, key) (r)
+//@   pure
+//@   ensures [layout] r == pathJoin(pathJoin(fsc.workspaceCacheDir, path), key)
+
+// C07: "the persistent cache never exposes a partially written entry". Crash invariant, asserted after every file-system
+// call of Set (every crash point): the entry's path holds either exactly what it held before or the complete new content;
+// it is never truncated or partially written in place.
+//@ func (*FileSystemCache).Set(fsc, ctx, path, key, content) (err)
+//@   crashinv [entry_old_or_complete] (has(fsIsFile, pathJoin(pathJoin(fsc.workspaceCacheDir, path), key)) == old(has(fsIsFile, pathJoin(pathJoin(fsc.workspaceCacheDir, path), key))) &&
+//@            select(fsData, pathJoin(pathJoin(fsc.workspaceCacheDir, path), key)) == old(select(fsData, pathJoin(pathJoin(fsc.workspaceCacheDir, path), key)))) ||
+//@        (has(fsIsFile, pathJoin(pathJoin(fsc.workspaceCacheDir, path), key)) && select(fsData, pathJoin(pathJoin(fsc.workspaceCacheDir, path), key)) == rcontent[ref(content)])
+//@   requires [key_is_not_a_temp_name] !isTmpName(pathJoin(pathJoin(fsc.workspaceCacheDir, path), key))
+//@   ensures [stored_completely_or_error] err == nil ==> has(fsIsFile, pathJoin(pathJoin(fsc.workspaceCacheDir, path), key)) &&
+//@        select(fsData, pathJoin(pathJoin(fsc.workspaceCacheDir, path), key)) == rcontent[ref(content)]
+
+//@ func (*FileSystemCache).Get(fsc, ctx, path, key) (r, err)
+//@   pure
+//@   ensures [content_of_entry] err == nil ==> r != nil && rcontent[ref(r)] == select(fsData, pathJoin(pathJoin(fsc.workspaceCacheDir, path), key)) && has(fsIsFile, pathJoin(pathJoin(fsc.workspaceCacheDir, path), key))
+//@   ensures [nil_on_error] err != nil ==> r == nil
+
+//@ func (*FileSystemCache).Exists(fsc, ctx, path, key) (r, err)
+//@   pure
+//@   ensures [true_means_present] r ==> err == nil && (has(fsIsFile, pathJoin(pathJoin(fsc.workspaceCacheDir, path), key)) || has(fsIsDir, pathJoin(pathJoin(fsc.workspaceCacheDir, path), key)))
